@@ -622,6 +622,8 @@ def run_cond(scn, root, chooser=None):
         base = float(clock)
         time.time = lambda: base
     os.chdir(os.path.join(root, scn.get("cwd", "")))
+    # nested use: `cond` started from inside a task of an outer `cond run -j N` inherits that task's COND_* variables
+    os.environ.update(scn.get("ambient") or {})
     sys.argv = ["cond"] + list(scn["argv"])
     out, err = _TextRec(fk, "stdout"), _TextRec(fk, "stderr")
     so, se = sys.stdout, sys.stderr
